@@ -1,5 +1,5 @@
 BASELINE_OFF = ("cd /repo && GOFLAGS=-mod=mod GOPROXY=off GOSUMDB=off go test -json -vet=off -count=1 -timeout 25m ./...")
-HOOK_COMMITS = ["f20f58a", "e864c3e", "f50cc2d", "8d815e1", "ff14fd0", "7fed6f0", "fe2ed3a", "6b6d9ec", "557b035", "2ef44e6", "7cac5c7"]
+HOOK_COMMITS = ["f20f58a", "e864c3e", "f50cc2d", "8d815e1", "ff14fd0", "7fed6f0", "fe2ed3a", "6b6d9ec", "557b035", "2ef44e6", "7cac5c7", "bc03792"]
 NOTES = ("Every check: (1) re-checks the property's Coq theorems (full .vo build, Print Assumptions, forbidden-construct grep), "
          "(2) rebuilds the Go harness from /repo's working tree with -tags verif, (3) runs generated + corpus cases on the real code, "
          "(4) evaluates the Coq model and the Coq monitors on the same cases with vm_compute, (5) reports VIOLATION / KNOWN-FINDING. "
